@@ -439,6 +439,22 @@ pub fn encode_plan(plan: &ChunkPlan, salt: u8) -> Coded {
 pub const CHUNK_EXTS: [&str; 3] = [";x", ";name=value", ";a=\"q\""];
 pub const TRAILERS: [&str; 3] = ["X-T: 1", "Checksum: abc", "t:"];
 
+/// Trailer field lines are not bounded the way chunk-size lines are: lines of 98..=102 bytes around a
+/// round number, a few hundred bytes, and several kilobytes.
+pub fn long_trailers() -> &'static [&'static str] {
+    static CELL: std::sync::OnceLock<Vec<&'static str>> = std::sync::OnceLock::new();
+    CELL.get_or_init(|| {
+        [98usize, 99, 100, 101, 102, 128, 255, 256, 257, 300, 1023, 1024, 5000]
+            .iter()
+            .map(|n| {
+                let s: String = format!("Digest: sha-512={}", "a".repeat(n - 16));
+                assert_eq!(s.len(), *n);
+                &*Box::leak(s.into_boxed_str())
+            })
+            .collect()
+    })
+}
+
 pub fn random_plan(rng: &mut Rng, max_chunks: usize, max_size: usize) -> ChunkPlan {
     let n = rng.usize_in(0, max_chunks);
     let mut plan = ChunkPlan::default();
@@ -460,7 +476,7 @@ pub fn random_plan(rng: &mut Rng, max_chunks: usize, max_size: usize) -> ChunkPl
     plan.last_ext = if rng.chance(1, 6) { Some(*rng.pick(&CHUNK_EXTS)) } else { None };
     let nt = if rng.chance(1, 3) { rng.usize_in(1, 2) } else { 0 };
     for _ in 0..nt {
-        plan.trailers.push(*rng.pick(&TRAILERS));
+        plan.trailers.push(if rng.chance(1, 4) { *rng.pick(long_trailers()) } else { *rng.pick(&TRAILERS) });
     }
     plan
 }
@@ -529,7 +545,8 @@ pub fn classify_te(v: Option<&[u8]>) -> TeClass {
         Some(b) => match std::str::from_utf8(b) {
             Err(_) => TeClass::Other,
             Ok(s) => {
-                let parts: Vec<String> = s.split(',').map(|p| p.trim().to_ascii_lowercase()).collect();
+                // empty list elements are ignored (RFC 9110 5.6.1.2)
+                let parts: Vec<String> = s.split(',').map(|p| p.trim().to_ascii_lowercase()).filter(|p| !p.is_empty()).collect();
                 let last = parts.last().map(|s| s.as_str()).unwrap_or("");
                 if last == "chunked" {
                     TeClass::Chunked
